@@ -9,6 +9,10 @@ HOOK_COMMITS = []
 NOT_APPLICABLE = {("C%02d" % i): "check not built yet in this round; see DESIGN.md section 6 for the plan" for i in range(1, 21)}
 
 PROPS = {
+    "C04": {"level": "exploration",
+            "level_text": "Generated operation histories on real Buffers (capacity 64..4096, all three growth modes) through every builder overload; after every step an independent layout walker (own bounds-checked decoder of the item layout) must decode exactly the model's committed and uncommitted item sequences; purge callbacks are compared with the model's (old,new) offsets. ASan and assertions are on, so a write through a stale pointer is fatal even if the content survives.",
+            "level_note": "Trusted: walker.hpp (layout facts read from the headers), the model. Preconditions kept: one builder chain open at a time, set_user before sub-builders, purge only on entity items and without uncommitted data, non-growing buffers are only overflowed where the exception cannot be raised inside a sub-builder destructor.",
+            "technique": "stateful property-based testing: generated operation histories vs reference model, invariant (independent layout decode) after every step, ASan"},
     "C01": {"level": "exploration",
             "level_text": "Generated object sequences and writer option vectors are written with the real Writer and read back with the real Reader; the result is compared item by item with the harness's projection of the model (what each format and option set carries). Sampling of an unbounded input space, weighted towards the format's internal boundaries.",
             "level_note": "Trusted: the harness's projection rules (DESIGN.md C01) and its model<->buffer conversion. Preconditions kept: deleted nodes carry no location, invisible objects only with history/change output, OPL node locations valid or undefined, ids != INT64_MIN, changesets only for XML/OPL, discussions only for XML.",
@@ -42,6 +46,9 @@ PROPS = {
 }
 
 UNITS = [
+    {"name": "c04_buffer", "props": ["C04"], "kind": "vp", "src": "harness/c04_buffer.cpp", "flags": ASAN, "libs": "",
+     "quick": {"cases": 1200, "shards": 16, "case_timeout": 60, "min_evaluations": 10000},
+     "thorough": {"cases": 50000, "shards": 16, "case_timeout": 120, "min_evaluations": 500000}},
     {"name": "c01_roundtrip", "props": ["C01"], "kind": "vp", "src": "harness/c01_roundtrip.cpp", "flags": ASAN, "libs": LIBS_IO,
      "quick": {"cases": 400, "shards": 16, "case_timeout": 60, "min_evaluations": 3000},
      "thorough": {"cases": 15000, "shards": 16, "case_timeout": 120, "min_evaluations": 100000}},
